@@ -125,6 +125,41 @@ pub fn c12(tier: &str, seed: u64) {
         }
         case(true);
       }
+      // ONE blinded point submitted under several tags, in both modes and both orders: each answer
+      // must be the one a fresh request for that tag gets (the unblinded result is a function of
+      // key, tag and input only - not of what the server was asked before)
+      if let Some(&md2) = tags.iter().find(|&&t| t != md) {
+        let (bp, cs) = Client::blind(&input);
+        let r = Scalar::from(cs);
+        let seq: Vec<(u8, bool)> = match g.below(3) {
+          0 => vec![(md, true), (md2, false), (md, false)],
+          1 => vec![(md, false), (md2, false), (md2, true), (md, false)],
+          _ => vec![(md2, false), (md, false)],
+        };
+        let mut per_tag: HashMap<u8, Vec<u8>> = HashMap::new();
+        for (k, (tag, verifiable)) in seq.iter().enumerate() {
+          match server.eval(&bp, *tag, *verifiable) {
+            Ok(ev) => {
+              let u = Client::unblind(&ev.output, &CurveScalar::from(r));
+              let want = if *tag == md { runs[0].3.clone() } else { run_once(&server, &input, *tag, false).map(|x| x.3).unwrap_or_default() };
+              if u.as_bytes().to_vec() != want {
+                fail(
+                  "unblind_eval_blind_ne_eval",
+                  &[("input", hex(&input)), ("md", tag.to_string()), ("what", format!("request {} of one blinded point sent under tags {:?}", k + 1, seq)), ("unblinded", hex(u.as_bytes())), ("direct", hex(&want))],
+                );
+              }
+              if let Some(prev) = per_tag.insert(*tag, ev.output.as_bytes().to_vec()) {
+                if prev != ev.output.as_bytes().to_vec() {
+                  fail("eval_mode_changes_output", &[("input", hex(&input)), ("md", tag.to_string())]);
+                }
+              }
+            }
+            Err(e) => fail("honest_run_failed", &[("err", err_kind(&e))]),
+          }
+        }
+        case(true);
+        stat("c12.one_point_many_tags");
+      }
       let fin = runs[0].4;
       // separation: other tag, other input, other server
       if let Some(&md2) = tags.iter().find(|&&t| t != md) {
